@@ -60,7 +60,7 @@ func runC07(w *World) {
 			return p
 		})
 		a := w.addActor(n, simAddr(fmt.Sprintf("127.0.0.1:%d", 50001+i)), prog)
-		a.onReply = func(op *Op) { hc.onReply(op, a.end.c.id) }
+		a.onReply = func(op *Op) { hc.onReply(op, a.end.c.name) }
 		clients = append(clients, a)
 	}
 	// live fences evaluate under the shared lock while writers run
